@@ -228,8 +228,10 @@ def lookup (env : Env) (x : Name) : Option (List Char) :=
   | [] => none
   | (n, v) :: rest => if n = x then some v else lookup rest x
 
-def update (env : Env) (x : Name) (v : List Char) : Env :=
-  (x, v) :: env.filter (fun p => p.1 ≠ x)
+/-- replace the value of `x`, or add `x` at the end -/
+def update : Env → Name → List Char → Env
+  | [], x, v => [(x, v)]
+  | (n, w) :: rest, x, v => if n = x then (n, v) :: rest else (n, w) :: update rest x v
 
 /-- an unset variable is 0 -/
 def readVar (env : Env) (x : Name) : Option Int :=
